@@ -1,6 +1,6 @@
 (** Statements of the C04 theorems spelled out again, so that a theorem cannot be silently
     weakened: this file stops compiling if a statement in Props/C04.v changes. *)
-From BV Require Import Base.Common Model.Index Model.ExecMap Proofs.Index Proofs.ExecMap Props.C04.
+From BV Require Import Base.Common Model.Index Model.ExecMap Proofs.Index Proofs.ExecMap Corr.C04 Proofs.CorrC04 Props.C04.
 
 Check C04_built_tables_wf : forall l x, build l = Some x -> indexed_wf x.
 Check C04_exchange : forall x e, indexed_wf x ->
@@ -49,6 +49,7 @@ Check C04_account_event_sound : forall x e m ev ev', indexed_wf x -> gen_map x e
 Check C04_account_event_complete : forall x e m ev ev', indexed_wf x -> names_distinct x e ->
   gen_map x e = Some m -> back_event x e ev' = Ok ev -> account_event m ev = Ok ev'.
 Check C04_hypothesis_check : forall x e, indexed_wf x -> names_distinct_b x e = true -> names_distinct x e.
+Check C04_oracle_sound : forall c, wf_case04 c = true -> corr_b c = true -> prop_b c = true.
 (* the definitions the statements rest on, pinned by evaluation *)
 Definition pin_x : indexed := mkIndexed [(0, 5); (1, 7)]%N
   [(0, (5, (1, 11))); (1, (7, (1, 12))); (2, (7, (2, 13)))]%N
@@ -65,3 +66,7 @@ Check eq_refl : back_event pin_x 7%N (1, EKTrade (1, 4))%N = Ok (7, EKTrade (31,
 Check eq_refl : back_event pin_x 7%N (1, EKTrade (0, 4))%N = Err tt.
 Check eq_refl : back_event pin_x 7%N (1, EKBalance (0, 4))%N = Err tt.
 Check eq_refl : names_distinct_b pin_x 7%N = true.
+Check eq_refl : wf_case04 (CMap [] (Some pin_x) [] []
+  [((1, 1, 0), None, None); ((0, 0, 1), None, None); ((0, 1, 2), None, None)])%N = true.
+Check eq_refl : wf_case04 (CMap [] (Some pin_x) [] []
+  [((0, 1, 2), None, None); ((1, 1, 0), None, None)])%N = false.
